@@ -100,6 +100,7 @@ type sim struct {
 	order   []*call
 
 	pre      *call // the prehistory's call
+	dialing  *call // the call set going last (guarded by mu): a dial to a shared host name is its dial
 	preConns []*simnet.Conn
 
 	mu     sync.Mutex // guards events, dialEv, seen, preConns and the calls' conns
@@ -334,11 +335,11 @@ func keyName(h [32]byte) string {
 func (c *call) describe() string {
 	switch c.class {
 	case clsUnpinned:
-		return fmt.Sprintf("call %d (no fingerprint) -> srv%d", c.k, c.target.n)
+		return fmt.Sprintf("call %d (no fingerprint) -> srv%d as %s", c.k, c.target.n, c.host)
 	case clsMalformed:
-		return fmt.Sprintf("call %d (malformed fingerprint, spelling %s) -> srv%d", c.k, c.act.FP, c.target.n)
+		return fmt.Sprintf("call %d (malformed fingerprint, spelling %s) -> srv%d as %s", c.k, c.act.FP, c.target.n, c.host)
 	}
-	return fmt.Sprintf("call %d (%s to %s, spelling %s) -> srv%d", c.k, c.class, keyName(c.hash), c.act.FP, c.target.n)
+	return fmt.Sprintf("call %d (%s to %s, spelling %s) -> srv%d as %s", c.k, c.class, keyName(c.hash), c.act.FP, c.target.n, c.host)
 }
 
 func (s *sim) main() {
@@ -442,6 +443,16 @@ func (s *sim) dial(ctx context.Context, network, addr string) (net.Conn, error) 
 	if p := strings.Split(host, "."); len(p) == 3 && p[2] == "test" && strings.HasPrefix(p[0], "c") && strings.HasPrefix(p[1], "srv") {
 		k, _ = strconv.Atoi(p[0][1:])
 		n, _ = strconv.Atoi(p[1][3:])
+	} else if len(p) == 2 && p[1] == "test" && strings.HasPrefix(p[0], "srv") {
+		// a server's own name, which calls share: one call is set going per
+		// step and all it does is done before the next step, so the dial is
+		// that call's
+		n, _ = strconv.Atoi(p[0][3:])
+		s.mu.Lock()
+		if d := s.dialing; d != nil && d.act.Host == hostServer && d.target.n == n {
+			k = d.k
+		}
+		s.mu.Unlock()
 	}
 	name := "srv" + strconv.Itoa(n)
 	if port == "80" {
@@ -519,7 +530,16 @@ func (s *sim) apply(a Action) {
 		}
 		c := &call{s: s, k: a.Call, act: a, fp: fp, target: s.servers[a.Server], release: make(chan struct{})}
 		c.class, c.hash = classify(fp)
-		c.host = hostOf(c.k, c.target.n)
+		switch a.Host {
+		case "":
+			c.host = hostOf(c.k, c.target.n)
+		case hostServer:
+			c.host = sharedHostOf(c.target.n)
+			s.probes["shared_host_calls"]++
+		default:
+			s.invalid = true
+			return
+		}
 		scheme, ok := map[string]string{"": "https", "upper": "HTTPS", "mixed": "Https", "redir": "http"}[a.URL]
 		if !ok {
 			s.invalid = true
@@ -537,7 +557,7 @@ func (s *sim) apply(a Action) {
 		}
 		switch c.class {
 		case clsUnpinned:
-			c.allowed = c.target.valid
+			c.allowed = c.target.validFor(c)
 		case clsPinned, clsLenient:
 			c.allowed = len(c.target.hasKey(c.hash)) > 0
 		}
@@ -580,7 +600,11 @@ func (s *sim) apply(a Action) {
 		if c.overlapped {
 			s.probes["overlapping_calls"]++
 		}
-		s.obs("call %d %s allowed=%v target=srv%d", c.k, c.class, c.allowed, c.target.n)
+		s.sameHostProbes(c)
+		s.obs("call %d %s allowed=%v target=srv%d host=%s", c.k, c.class, c.allowed, c.target.n, c.host)
+		if c.hold == nil {
+			s.setDialing(c)
+		}
 		go func() {
 			err := simpleshell.Go(context.Background(), simpleshell.ConnConfig{C2: c.url, Fingerprint: c.fp}, shellImpl{c})
 			c.mu.Lock()
@@ -665,7 +689,53 @@ func (s *sim) apply(a Action) {
 func (s *sim) unpark(c *call) {
 	if c.hold != nil && !c.outReleased {
 		c.outReleased = true
+		s.setDialing(c)
 		close(c.hold)
+	}
+}
+
+func (s *sim) setDialing(c *call) {
+	s.mu.Lock()
+	s.dialing = c
+	s.mu.Unlock()
+}
+
+// sameHostProbes counts the sequences in which call c, about to start, comes
+// after a call to the very same host name (and port) that went through.
+func (s *sim) sameHostProbes(c *call) {
+	if c.act.Host != hostServer {
+		return
+	}
+	var again, afterGoodPin, afterUnpinned, afterRefused bool
+	for _, o := range s.order {
+		if o == c || o.host != c.host {
+			continue
+		}
+		again = true
+		switch {
+		case o.sawConnected && o.allowed && o.class == clsPinned:
+			afterGoodPin = true
+		case o.sawConnected && o.allowed && o.class == clsUnpinned:
+			afterUnpinned = true
+		case o.sawReturned && !o.sawConnected:
+			afterRefused = true
+		}
+	}
+	if again {
+		s.probes["shared_host_again"]++
+	}
+	wrong := (c.class == clsPinned || c.class == clsLenient) && !c.allowed
+	switch {
+	case wrong && afterGoodPin:
+		s.probes["wrong_pin_after_good_pin_same_host"]++
+	case wrong && afterUnpinned:
+		s.probes["wrong_pin_after_unpinned_same_host"]++
+	}
+	if c.class == clsUnpinned && !c.allowed && afterGoodPin {
+		s.probes["unpinned_bad_chain_after_good_pin_same_host"]++
+	}
+	if c.allowed && afterRefused {
+		s.probes["allowed_after_refused_same_host"]++
 	}
 }
 
@@ -714,7 +784,7 @@ func (s *sim) judge(c *call) {
 					s.probes["pin_at_leaf"]++
 				}
 			}
-			if !c.target.valid {
+			if !c.target.validFor(c) {
 				s.probes["pin_overrides_invalid_chain"]++
 			}
 		}
@@ -769,6 +839,10 @@ func (s *sim) observe() {
 	for _, e := range events {
 		if e.what == "req" {
 			s.obs("srv%d saw request call=%d %s", e.srv, e.call, e.text)
+			if e.resumed {
+				s.obs("srv%d: that request came over a resumed TLS session", e.srv)
+				s.probes["requests_over_resumed_tls"]++
+			}
 		} else {
 			s.obs("srv%d saw body call=%d %dB", e.srv, e.call, e.bytes)
 		}
@@ -776,6 +850,9 @@ func (s *sim) observe() {
 		if c == nil {
 			s.harnessErr = fmt.Sprintf("srv%d saw traffic of unknown call %d", e.srv, e.call)
 			return
+		}
+		if e.what == "req" {
+			s.rides(c, e.conn)
 		}
 		s.checkTraffic(c, s.servers[e.srv], e)
 	}
@@ -812,16 +889,49 @@ func (s *sim) observe() {
 	}
 }
 
+// rides notes over whose connection call c's request came.  Calls without a
+// fingerprint share the process's default transport, which keeps connections
+// alive: a later call to the same host name and port may be given the
+// connection an earlier call dialled, once that call's exchange is over.  The
+// servers speak HTTP/1.1 only, so a connection carries one exchange at a time
+// and from then on is c's (a reset of c's connections resets it, a reset of
+// the earlier call's does not).
+func (s *sim) rides(c *call, serial int) {
+	if serial == 0 {
+		return
+	}
+	s.mu.Lock()
+	defer s.mu.Unlock()
+	for _, o := range s.order {
+		if o == c {
+			continue
+		}
+		for i, cn := range o.conns {
+			if cn.Serial != serial {
+				continue
+			}
+			o.conns = append(o.conns[:i:i], o.conns[i+1:]...)
+			c.conns = append(c.conns, cn)
+			s.probes["connection_reused_by_later_call"]++
+			s.obs("call %d's request came over the connection call %d dialled", c.k, o.k)
+			return
+		}
+	}
+}
+
 // checkTraffic: whatever a server's handler saw of a call must be allowed by
 // that call's own configuration.
 func (s *sim) checkTraffic(c *call, sv *server, e srvEvent) {
 	what := "a request (" + e.text + ")"
+	if e.resumed {
+		what = "a request (" + e.text + ", over a TLS session resumed from an earlier connection's)"
+	}
 	if e.what == "body" {
 		what = fmt.Sprintf("%d body bytes", e.bytes)
 	}
 	switch c.class {
 	case clsUnpinned:
-		if !sv.valid {
+		if !sv.validFor(c) {
 			s.violate(InvTraffic, SigUnpinnedBad, "%s saw %s of %s, which has no fingerprint and so needs ordinary validation%s",
 				sv.describe(), what, c.describe(), s.pinHint(c, sv))
 		}
